@@ -173,6 +173,14 @@ def make_dep5(rng, clean=False):
         if rng.random() < 0.3:
             lines.append("Comment: a comment about this paragraph\n continued")
         paras.append("\n".join(lines))
+        if rng.random() < 0.3 and j >= 1:
+            # A, B, A' : a later paragraph with exactly the information of an earlier one but other, overlapping patterns.
+            # "Last matching paragraph wins" must survive the conversion whatever the paragraphs have in common.
+            first = paras[rng.randrange(len(paras) - 1)]
+            body = first.split("\n", 1)[1] if not first.startswith("Files:\n") else None
+            if body and "\n " not in first.split("\n", 1)[0]:
+                pats2 = rng.sample(CLEAN_PATTERNS if clean else PATTERNS, rng.randint(1, 2))
+                paras.append("Files: " + " ".join(pats2) + "\n" + body)
     head = HEADER
     if rng.random() < 0.3:
         head += "Disclaimer: not part of Debian\n"
